@@ -402,6 +402,24 @@ fn run_ipc(t: &[&str], fails: &mut Vec<(String, String)>) -> String {
     let chunks = split(&data, &sizes);
     let given = ipc_push(&chunks);
     ipc_oracles(&data, &sizes, &given, fails, data.len() <= 1500);
+    // structural classification of a push-vs-pull difference (recomputed from the case line, so
+    // that replayed lines carry it too): where does the stream end relative to the genuine messages?
+    let mut extra = String::new();
+    for e in t[4].split(',').filter(|e| *e != "-") {
+        let f: Vec<usize> = e.split(':').map(|x| x.parse().unwrap()).collect();
+        let (md_end, msg_end) = (f[0] + f[1], f[0] + f[1] + f[3]);
+        if f[3] == 0 && data.len() == md_end && !extra.contains("pending") {
+            extra.push_str(" finding:ipc-pending-empty-body");
+        }
+        if data.len() > msg_end && data.len() - msg_end <= 3 && !extra.contains("partial") {
+            extra.push_str(" finding:ipc-pull-partial-prefix");
+        }
+    }
+    for f in fails.iter_mut() {
+        if f.1.contains("push-vs-pull") {
+            f.1.push_str(&extra);
+        }
+    }
     ipc_answer(&given)
 }
 
